@@ -96,7 +96,9 @@ def run(rep: Report, tier: str) -> None:
         if tier == "quick" and len(rec["ch"]) == 3 and rng.random() > 0.2:
             continue
         replay_chain(rep, rec, rng)
-    cfgs = ops.configs_deep(rng, tier)
+    from .c01 import extra_cfgs
+
+    cfgs = ops.configs_deep(rng, tier) + [c for c in extra_cfgs(rng) if not c.get("frozen")]     # + the magnitude / low-precision corners of C01
     classes = fnlog.Classes()
     events: List[List[Any]] = []
     cfg_of: Dict[int, Dict[str, Any]] = {}
